@@ -17,7 +17,8 @@ EXPLANATION = ("Decides structural clauses of C05, not value-level round trips: 
                "length; public mutators of the unhashed area adjust the stored length by the subpacket's write_len on insert and remove "
                "alike; the S2K-usage and packet-tag code tables are mutually inverse and equal the RFC tables; opaque variants "
                "(unknown-version PKESK / SKESK) are written with the number of fixed octets they were read with; every tag the packet "
-               "serializer can emit has a parsing arm. Not decided: MPI normalisation, canonical re-encoding equality.")
+               "serializer can emit has a parsing arm. Not decided: MPI normalisation, canonical re-encoding equality."
+               ' Also: every `&mut self` mutator of a packet type refreshes the stored header length (S05-9), serialiser / length query / parser test the key version at the same places for the v6-only length octets (S05-10), and (shared with C17) the length encoders/decoders are inverse partitions.')
 ASSUMPTIONS = ["length axioms are taken from the code itself (constant-size types: their own consistent write_len; [u8; N] fields: the ADT definition)"]
 
 
